@@ -63,25 +63,39 @@ Ltac inv_bind H :=
 
 (* ================================================================================================ decoder primitives *)
 
+Lemma has_z_spec d : forall n, has_z d n = (n <=? len d).
+Proof.
+  induction d as [|x t IH]; intros n; cbn [has_z].
+  - reflexivity.
+  - rewrite len_cons. destruct (n <=? 0) eqn:E.
+    + apply Z.leb_le in E. symmetry. apply Z.leb_le. pose proof (len_nonneg t). lia.
+    + rewrite IH. apply Z.leb_gt in E. destruct (n - 1 <=? len t) eqn:E2; symmetry.
+      * apply Z.leb_le in E2. apply Z.leb_le. lia.
+      * apply Z.leb_gt in E2. apply Z.leb_gt. lia.
+Qed.
+
+Lemma short_spec d n : short d n = (len d <? n).
+Proof. unfold short. rewrite has_z_spec. rewrite Z.ltb_antisym. reflexivity. Qed.
+
 Lemma need_no_ub n d : no_ub (need n d).
-Proof. unfold need. destruct (len d <? n); [apply no_ub_fail|apply no_ub_ret]. Qed.
+Proof. unfold need. destruct (short d n); [apply no_ub_fail|apply no_ub_ret]. Qed.
 
 Lemma rd_no_ub n d : no_ub (rd n d).
-Proof. unfold rd. destruct (len d <? Z.of_nat n); [apply no_ub_fail|apply no_ub_ret]. Qed.
+Proof. unfold rd. destruct (short d (Z.of_nat n)); [apply no_ub_fail|apply no_ub_ret]. Qed.
 
 Lemma rd_bytes_no_ub n d : no_ub (rd_bytes n d).
-Proof. unfold rd_bytes. destruct (len d <? n); [apply no_ub_fail|apply no_ub_ret]. Qed.
+Proof. unfold rd_bytes. destruct (short d n); [apply no_ub_fail|apply no_ub_ret]. Qed.
 
 Lemma rd_inv n d v d' : rd n d = Ret (v, d') -> d' = skipn n d /\ Z.of_nat n <= len d /\ v = le_decode (firstn n d).
 Proof.
-  unfold rd. destruct (len d <? Z.of_nat n) eqn:E; intros H; [discriminate|].
+  unfold rd. rewrite short_spec. destruct (len d <? Z.of_nat n) eqn:E; intros H; [discriminate|].
   inversion H; subst. apply Z.ltb_ge in E. auto.
 Qed.
 
 Lemma rd_bytes_inv n d v d' : rd_bytes n d = Ret (v, d') ->
   d' = skipn (Z.to_nat n) d /\ n <= len d /\ v = firstn (Z.to_nat n) d.
 Proof.
-  unfold rd_bytes. destruct (len d <? n) eqn:E; intros H; [discriminate|].
+  unfold rd_bytes. rewrite short_spec. destruct (len d <? n) eqn:E; intros H; [discriminate|].
   inversion H; subst. apply Z.ltb_ge in E. auto.
 Qed.
 
@@ -1516,17 +1530,17 @@ Proof.
   unfold value_okb. intros H. apply andb_true_iff in H. destruct H as [Hb H].
   destruct ty as [|n|]; cbn [encode_value decode_one].
   - destruct v as [|b [|? ?]]; try discriminate. apply orb_true_iff in H.
-    unfold rd_u8, rd. cbn [len length Z.of_nat]. cbn. destruct H as [H|H]; apply Z.eqb_eq in H; subst; reflexivity.
-  - apply Z.eqb_eq in H. unfold rd_bytes. rewrite H. rewrite Z.ltb_irrefl. cbn [bind].
+    unfold rd_u8, rd. cbn. destruct H as [H|H]; apply Z.eqb_eq in H; subst; reflexivity.
+  - apply Z.eqb_eq in H. unfold rd_bytes. rewrite short_spec. rewrite H. rewrite Z.ltb_irrefl. cbn [bind].
     rewrite <- H. rewrite firstn_len_all. reflexivity.
-  - apply Z.ltb_lt in H. unfold rd_vec32, rd_u32, rd.
+  - apply Z.ltb_lt in H. unfold rd_vec32, rd_u32, rd. rewrite short_spec.
     assert (L4 : length (enc_u32 (len v)) = 4%nat) by apply le_encode_length.
     rewrite len_app. unfold len at 1. rewrite L4.
     pose proof (len_nonneg v).
     destruct (Z.of_nat 4 + len v <? Z.of_nat 4) eqn:E; [apply Z.ltb_lt in E; lia|].
     cbn [bind]. rewrite firstn_exact by exact L4. rewrite skipn_exact by exact L4.
     unfold enc_u32. rewrite le_decode_encode by (change (256 ^ Z.of_nat 4) with two32; lia).
-    unfold rd_bytes. rewrite Z.ltb_irrefl. cbn [bind]. rewrite firstn_len_all. reflexivity.
+    unfold rd_bytes. rewrite short_spec. rewrite Z.ltb_irrefl. cbn [bind]. rewrite firstn_len_all. reflexivity.
 Qed.
 
 (* a mesh with pending deletions is refused and nothing is written *)
@@ -1566,3 +1580,276 @@ Example ex_mixed_roundtrip :
   decode_impl {| o_mesh := MPoly; o_check := false; o_bu := false; o_dim := 3 |} (encode 3 0 ex_mixed) = ROk ex_mixed /\
   decode_spec 3 (encode 3 0 ex_mixed) = Some ex_mixed.
 Proof. vm_compute. repeat split; reflexivity. Qed.
+
+(* ================================================================================================ C07: stored handles *)
+
+Definition edge_ok (nv : Z) (e : Z * Z) : Prop := 0 <= fst e < nv /\ 0 <= snd e < nv.
+Definition in_lim (lim : Z) (x : Z) : Prop := 0 <= x < lim.
+
+Definition handles_ok (nv : Z) (edges : list (Z * Z)) (faces cells : list (list Z)) : Prop :=
+  Forall (edge_ok nv) edges /\
+  Forall (Forall (in_lim (2 * len edges))) faces /\
+  Forall (Forall (in_lim (2 * len faces))) cells.
+
+Definition mesh_valid (m : meshfile) : Prop :=
+  handles_ok (m_nv m) (m_edges m) (m_faces m) (m_cells m) /\
+  Forall (fun p => len (p_vals p) = ent_count m (p_ent p)) (m_props m).
+
+(* reader configurations in which add_cell stores the halffaces as given (everything except the re-ordering path of the
+   hexahedral class with the topology check on) *)
+Definition plain_cells (o : opts) : Prop := match o_mesh o with MHex => o_check o = false | _ => True end.
+
+Definition small_hdr (h : fhdr) : Prop :=
+  0 <= h_nv h < 1073741824 /\ 0 <= h_ne h < 1073741824 /\ 0 <= h_nf h < 1073741824 /\ 0 <= h_nc h < 1073741824.
+
+Definition Inv2 (h : fhdr) (st : rst) : Prop :=
+  0 <= r_nvr st <= h_nv h /\ 0 <= r_ner st <= h_ne h /\ 0 <= r_nfr st <= h_nf h /\ 0 <= r_ncr st <= h_nc h /\
+  r_ner st <= len (r_edges st) /\ r_nfr st <= len (r_faces st) /\
+  handles_ok (h_nv h) (r_edges st) (r_faces st) (r_cells st).
+
+Lemma base_add_face_stored edges hs check s : base_add_face edges hs check = Ret (Some s) -> s = hs.
+Proof.
+  unfold base_add_face. intros H. destruct check; [|inversion H; reflexivity].
+  destruct hs as [|h0 t]; [discriminate|]. apply bind_ret_inv in H. destruct H as [ok [_ H]].
+  destruct ok; inversion H; reflexivity.
+Qed.
+
+Lemma mesh_add_face_stored o edges hs s : mesh_add_face o edges hs = Ret (Some s) -> s = hs.
+Proof.
+  unfold mesh_add_face. intros H. destruct (o_mesh o).
+  - eapply base_add_face_stored; eassumption.
+  - destruct (len hs =? 3); [eapply base_add_face_stored; eassumption|discriminate].
+  - destruct (len hs =? 4); [eapply base_add_face_stored; eassumption|discriminate].
+Qed.
+
+Lemma base_add_cell_stored faces hs check s : base_add_cell faces hs check = Ret (Some s) -> s = hs.
+Proof.
+  unfold base_add_cell. intros H. destruct check; [|inversion H; reflexivity].
+  destruct hs as [|h0 t]; [discriminate|].
+  apply bind_ret_inv in H. destruct H as [? [_ H]]. apply bind_ret_inv in H. destruct H as [? [_ H]].
+  repeat match type of H with (if ?c then _ else _) = _ => destruct c end; inversion H; reflexivity.
+Qed.
+
+Lemma mesh_add_cell_stored o faces hs s : plain_cells o -> mesh_add_cell o faces hs = Ret (Some s) -> s = hs.
+Proof.
+  unfold plain_cells, mesh_add_cell. intros Hp H. destruct (o_mesh o).
+  - eapply base_add_cell_stored; eassumption.
+  - destruct (len hs =? 4); [|discriminate]. apply bind_ret_inv in H. destruct H as [ok [_ H]].
+    destruct ok; [eapply base_add_cell_stored; eassumption|discriminate].
+  - destruct (len hs =? 6); [|discriminate]. apply bind_ret_inv in H. destruct H as [ok [_ H]].
+    destruct ok; cbn [negb] in H; [|discriminate]. rewrite Hp in H. cbn [negb] in H.
+    eapply base_add_cell_stored; eassumption.
+Qed.
+
+Lemma wrap64_nonneg x : 0 <= wrap64 x.
+Proof. unfold wrap64. apply Z.mod_pos_bound. unfold two64. lia. Qed.
+
+Lemma from_unsigned_id x : 0 <= x <= int_max -> from_unsigned x = x.
+Proof. unfold from_unsigned. intros H. destruct (x <=? int_max) eqn:E; [reflexivity|apply Z.leb_gt in E; lia]. Qed.
+
+Lemma rd_edges_ok fuel : forall count enc off nvr d l d' nv,
+  nvr <= nv -> nv <= int_max -> rd_edges fuel count enc off nvr d = Ret (l, d') -> Forall (edge_ok nv) l.
+Proof.
+  induction fuel; intros count enc off nvr d l d' nv H1 H2 H; simpl in H; crunch_any; try constructor.
+  - match goal with HH : (_ <=? wrap64 (?a + off)) || (_ <=? wrap64 (?b + off)) = false |- _ =>
+      apply orb_false_iff in HH; destruct HH as [A B]; apply Z.leb_gt in A; apply Z.leb_gt in B;
+      pose proof (wrap64_nonneg (a + off)); pose proof (wrap64_nonneg (b + off)) end.
+    unfold edge_ok. cbn [fst snd]. rewrite !from_unsigned_id by lia. lia.
+  - eapply IHfuel; eassumption.
+Qed.
+
+Lemma rd_items_fixed_forall (Q : list Z -> Prop) fuel : forall count valence enc mk add acc d r d',
+  (forall d1 hs d2 a s, read_n_ints enc valence mk d1 = Ret (hs, d2) -> add hs a = Ret (Some s) -> Q s) ->
+  Forall Q acc -> rd_items_fixed fuel count valence enc mk add acc d = Ret (r, d') -> Forall Q r.
+Proof.
+  induction fuel; intros count valence enc mk add acc d r d' HQ Hacc H; simpl in H; crunch_any; try assumption.
+  eapply IHfuel; [exact HQ| |eassumption]. apply Forall_app. split; [exact Hacc|]. constructor; [|constructor].
+  eapply HQ; eassumption.
+Qed.
+
+Lemma rd_items_var_forall (Q : list Z -> Prop) vals : forall enc mk add acc d r d',
+  (forall v d1 hs d2 a s, read_n_ints enc v mk d1 = Ret (hs, d2) -> add hs a = Ret (Some s) -> Q s) ->
+  Forall Q acc -> rd_items_var vals enc mk add acc d = Ret (r, d') -> Forall Q r.
+Proof.
+  induction vals as [|v t IH]; intros enc mk add acc d r d' HQ Hacc H; simpl in H; crunch_any; try assumption.
+  eapply IH; [exact HQ| |eassumption]. apply Forall_app. split; [exact Hacc|]. constructor; [|constructor].
+  eapply HQ; eassumption.
+Qed.
+
+Lemma handles_in_lim off n m enc v d1 hs d2 : 0 <= n <= m -> 2 * n <= int_max + 1 ->
+  read_n_ints enc v (mk_handle off (2 * n)) d1 = Ret (hs, d2) -> Forall (in_lim (2 * m)) hs.
+Proof.
+  intros Hn Hm H. apply (read_n_ints_forall (in_lim (2 * m))) in H; [apply H|].
+  intros x w Hw. apply mk_handle_ok in Hw. destruct Hw as [A ->].
+  pose proof (wrap64_nonneg (x + off)). rewrite from_unsigned_id by lia. unfold in_lim. lia.
+Qed.
+
+Lemma in_lim_mono a b l : a <= b -> Forall (Forall (in_lim a)) l -> Forall (Forall (in_lim b)) l.
+Proof.
+  intros Hab H. eapply Forall_impl; [|exact H]. intros x Hx. eapply Forall_impl; [|exact Hx]. unfold in_lim. intros; lia.
+Qed.
+
+Lemma rd_span_nonneg d first count d' : bytes_ok d -> rd_span d = Ret (first, count, d') ->
+  0 <= first /\ 0 <= count /\ bytes_ok d'.
+Proof.
+  intros Hd H. unfold rd_span in H. crunch_any.
+  apply rd_inv in Ha0. destruct Ha0 as [-> [_ ->]]. apply rd_inv in Ha1. destruct Ha1 as [-> [_ ->]].
+  split; [apply le_decode_range; apply bytes_ok_firstn; exact Hd|].
+  split; [apply le_decode_range; apply bytes_ok_firstn; apply bytes_ok_skipn; exact Hd|].
+  apply bytes_ok_skipn. apply bytes_ok_skipn. exact Hd.
+Qed.
+
+Lemma int_max_val : int_max = 2147483647. Proof. reflexivity. Qed.
+
+Lemma read_topo_chunk_inv2 o h st d st' d' :
+  bytes_ok d -> small_hdr h -> plain_cells o -> Inv2 h st ->
+  read_topo_chunk o h st d = Ret (st', d') -> Inv2 h st'.
+Proof.
+  intros Hd Hs Hp HI H. unfold read_topo_chunk in H.
+  destruct HI as [V [E [F [C [LE [LF [HE [HF HC]]]]]]]].
+  destruct Hs as [S1 [S2 [S3 S4]]].
+  pose proof int_max_val as IM.
+  crunch_any;
+  first [match goal with HH : rd_span d = Ret (_, _, _) |- _ => destruct (rd_span_nonneg _ _ _ _ Hd HH) as [Hf0 [Hc0 _]] end | idtac "NOSPAN"];
+  first [match goal with HH : validate_span _ _ _ _ = Ret ?u |- _ => destruct u; apply validate_span_ok in HH; [|lia|unfold two64; lia]; destruct HH as [Hfr Hct] end | idtac "NOVAL"];
+  unfold Inv2, handles_ok; cbn [add_edges add_faces add_cells r_nvr r_ner r_nfr r_ncr r_edges r_faces r_cells]; rewrite ?len_app;
+  try (match goal with HH : rd_edges _ _ _ _ _ _ = Ret _ |- _ => pose proof (rd_edges_len _ _ _ _ _ _ _ _ HH); pose proof (rd_edges_ok _ _ _ _ _ _ _ _ (h_nv h) (proj2 V) ltac:(lia) HH) end);
+  try (match goal with HH : rd_items_fixed _ _ _ _ _ _ _ _ = Ret _ |- _ => pose proof (rd_items_fixed_len _ _ _ _ _ _ _ _ _ _ HH) as HL; rewrite len_nil in HL end);
+  try (match goal with HH : rd_items_var _ _ _ _ _ _ = Ret _ |- _ => pose proof (rd_items_var_len _ _ _ _ _ _ _ _ HH) as HL; rewrite len_nil in HL end);
+  try (match goal with HH : read_n_ints ?enc ?count (fun x => Ret x) _ = Ret _, HE : (?enc =? IntEncoding_None) = false, HV : rd_enum8 is_valid_IntEncoding _ = Ret (?enc, _) |- _ =>
+         apply (read_n_ints_forall (fun _ => True)) in HH; [|intros; exact I]; destruct HH as [_ HH];
+         apply rd_enum8_inv in HV; destruct HV as [_ HV]; apply Z.eqb_neq in HE; specialize (HH (valid_enc_size _ HV HE)) end);
+  repeat split; try lia; try assumption;
+  try (eapply in_lim_mono; [|eassumption]; match goal with |- _ <= 2 * (_ + len ?l) => pose proof (len_nonneg l) end; lia);
+  apply Forall_app; (split; [assumption|]); try assumption;
+  ( (* faces *)
+    lazymatch goal with
+    | HH : rd_items_fixed _ _ _ _ (mk_handle _ (2 * r_ner st)) _ [] _ = Ret _ |- _ =>
+        eapply (rd_items_fixed_forall (Forall (in_lim (2 * len (r_edges st))))); [|apply Forall_nil|exact HH];
+        intros ? hs ? ? s Hr Hadd; apply mesh_add_face_stored in Hadd; subst s;
+        eapply handles_in_lim; [| |exact Hr]; lia
+    | HH : rd_items_var _ _ (mk_handle _ (2 * r_ner st)) _ [] _ = Ret _ |- _ =>
+        eapply (rd_items_var_forall (Forall (in_lim (2 * len (r_edges st))))); [|apply Forall_nil|exact HH];
+        intros ? ? hs ? ? s Hr Hadd; apply mesh_add_face_stored in Hadd; subst s;
+        eapply handles_in_lim; [| |exact Hr]; lia
+    | HH : rd_items_fixed _ _ _ _ (mk_handle _ (2 * r_nfr st)) _ [] _ = Ret _ |- _ =>
+        eapply (rd_items_fixed_forall (Forall (in_lim (2 * len (r_faces st))))); [|apply Forall_nil|exact HH];
+        intros ? hs ? ? s Hr Hadd; apply (mesh_add_cell_stored _ _ _ _ Hp) in Hadd; subst s;
+        eapply handles_in_lim; [| |exact Hr]; lia
+    | HH : rd_items_var _ _ (mk_handle _ (2 * r_nfr st)) _ [] _ = Ret _ |- _ =>
+        eapply (rd_items_var_forall (Forall (in_lim (2 * len (r_faces st))))); [|apply Forall_nil|exact HH];
+        intros ? ? hs ? ? s Hr Hadd; apply (mesh_add_cell_stored _ _ _ _ Hp) in Hadd; subst s;
+        eapply handles_in_lim; [| |exact Hr]; lia
+    end ).
+Qed.
+
+Lemma read_vertices_chunk_inv2 o h st d st' d' :
+  bytes_ok d -> small_hdr h -> Inv2 h st -> read_vertices_chunk o h st d = Ret (st', d') -> Inv2 h st'.
+Proof.
+  intros Hd Hs HI H. unfold read_vertices_chunk in H.
+  destruct HI as [V [E [F [C [LE [LF HH]]]]]]. destruct Hs as [S1 _].
+  crunch_any;
+  (match goal with HS : rd_span d = Ret (_, _, _) |- _ => destruct (rd_span_nonneg _ _ _ _ Hd HS) as [Hf0 [Hc0 _]] end);
+  (match goal with HV : validate_span _ _ _ _ = Ret ?u |- _ => destruct u; apply validate_span_ok in HV; [|lia|unfold two64; lia]; destruct HV as [Hfr Hct] end);
+  unfold Inv2; cbn [add_verts r_nvr r_ner r_nfr r_ncr r_edges r_faces r_cells]; repeat split; try lia; try assumption; apply HH.
+Qed.
+
+Lemma read_propdir_chunk_fields st d st' d' : read_propdir_chunk st d = Ret (st', d') ->
+  r_nvr st' = r_nvr st /\ r_ner st' = r_ner st /\ r_nfr st' = r_nfr st /\ r_ncr st' = r_ncr st /\
+  r_edges st' = r_edges st /\ r_faces st' = r_faces st /\ r_cells st' = r_cells st /\ r_pos st' = r_pos st.
+Proof. unfold read_propdir_chunk. intros H. crunch_any. cbn. repeat split; reflexivity. Qed.
+
+Lemma read_prop_chunk_fields h st d st' d' : read_prop_chunk h st d = Ret (st', d') ->
+  r_nvr st' = r_nvr st /\ r_ner st' = r_ner st /\ r_nfr st' = r_nfr st /\ r_ncr st' = r_ncr st /\
+  r_edges st' = r_edges st /\ r_faces st' = r_faces st /\ r_cells st' = r_cells st /\ r_pos st' = r_pos st.
+Proof. unfold read_prop_chunk. intros H. crunch_any; cbn; repeat split; reflexivity. Qed.
+
+Lemma Inv2_fields h st st' :
+  r_nvr st' = r_nvr st /\ r_ner st' = r_ner st /\ r_nfr st' = r_nfr st /\ r_ncr st' = r_ncr st /\
+  r_edges st' = r_edges st /\ r_faces st' = r_faces st /\ r_cells st' = r_cells st /\ r_pos st' = r_pos st ->
+  Inv2 h st -> Inv2 h st'.
+Proof. intros [A [B [C [D [E [F [G _]]]]]]]. unfold Inv2. rewrite A, B, C, D, E, F, G. auto. Qed.
+
+Lemma read_chunk_inv2 o h st eof s st' eof' s' :
+  bytes_ok (s_bytes s) -> small_hdr h -> plain_cells o -> Inv2 h st ->
+  read_chunk o h st eof s = Ret (st', eof', s') -> Inv2 h st'.
+Proof.
+  intros Hok Hs Hp HI H. unfold read_chunk in H.
+  destruct eof; [discriminate|].
+  apply bind_ret_inv in H. destruct H as [[d s1] [Hm1 H]].
+  apply make_decoder_inv in Hm1; [|unfold ovmb_size_ChunkHeader; lia]. destruct Hm1 as [Hb1 _].
+  rewrite Hb1 in Hok. destruct (bytes_ok_app_inv _ _ Hok) as [Hokd Hok1].
+  crunch_any; try exact HI;
+  (match goal with Hm : make_decoder _ s1 = Ret (?cd, _) |- _ =>
+         assert (Hcd : bytes_ok cd) by
+           (unfold make_decoder in Hm; repeat match type of Hm with (if ?c then _ else _) = _ => destruct c; [discriminate|] end;
+            inversion Hm; subst; apply bytes_ok_firstn; exact Hok1) end);
+  first [ eapply Inv2_fields; [eapply read_propdir_chunk_fields; eassumption|exact HI]
+        | eapply Inv2_fields; [eapply read_prop_chunk_fields; eassumption|exact HI]
+        | eapply read_vertices_chunk_inv2; eassumption
+        | eapply read_topo_chunk_inv2; eassumption ].
+Qed.
+
+Lemma chunk_loop_inv2 fuel : forall o h st eof s st' eof',
+  bytes_ok (s_bytes s) -> small_hdr h -> plain_cells o -> Inv2 h st ->
+  chunk_loop fuel o h st eof s = Ret (st', eof') -> Inv2 h st'.
+Proof.
+  induction fuel as [|f IH]; intros o h st eof s st' eof' Hok Hs Hp HI H; simpl in H.
+  - destruct (remaining_bytes s <=? 0); [|discriminate]. inversion H; subst. exact HI.
+  - destruct (remaining_bytes s <=? 0); [inversion H; subst; exact HI|].
+    apply bind_ret_inv in H. destruct H as [[[st1 eof1] s1] [Hx H]].
+    pose proof (read_chunk_frame _ _ _ _ _ _ _ _ Hok Hx) as Fr. cbv zeta in Fr. destruct Fr as [_ [_ [_ [F4 _]]]].
+    eapply IH; [| | | |exact H]; try assumption.
+    + rewrite F4. apply bytes_ok_skipn. exact Hok.
+    + eapply read_chunk_inv2; eassumption.
+Qed.
+
+Lemma init_inv2 h : small_hdr h -> Inv2 h init_rst.
+Proof.
+  intros [A [B [C D]]]. unfold Inv2, handles_ok. cbn [init_rst r_nvr r_ner r_nfr r_ncr r_edges r_faces r_cells].
+  change (len (@nil (Z * Z))) with 0. change (len (@nil (list Z))) with 0.
+  repeat split; try lia; constructor.
+Qed.
+
+(* the four entity counts of the file header are below 2^30 *)
+Definition small_counts (bytes : list byte) : Prop :=
+  le_decode (firstn 8 (skipn 16 bytes)) < 1073741824 /\ le_decode (firstn 8 (skipn 24 bytes)) < 1073741824 /\
+  le_decode (firstn 8 (skipn 32 bytes)) < 1073741824 /\ le_decode (firstn 8 (skipn 40 bytes)) < 1073741824.
+
+Lemma read_file_header_counts d h : read_file_header d = (h, true) ->
+  h_nv h = le_decode (firstn 8 (skipn 16 d)) /\ h_ne h = le_decode (firstn 8 (skipn 24 d)) /\
+  h_nf h = le_decode (firstn 8 (skipn 32 d)) /\ h_nc h = le_decode (firstn 8 (skipn 40 d)).
+Proof.
+  unfold read_file_header.
+  repeat match goal with |- (if ?c then _ else _) = _ -> _ => destruct c end; intros H; inversion H; subst.
+  cbn. repeat split; reflexivity.
+Qed.
+
+(* C07_valid: success means every stored handle designates an existing entity and every property has one element per
+   entity - for entity counts below 2^30 and every configuration except the hexahedral class with the topology check on *)
+Theorem ok_mesh_valid o bytes m :
+  bytes_ok bytes -> small_counts bytes -> plain_cells o -> decode_impl o bytes = ROk m -> mesh_valid m.
+Proof.
+  intros Hok Hsm Hp H. split; [|eapply ok_props_sized; eassumption].
+  unfold decode_impl, decode_stream in H.
+  destruct (read_header _) as [[h ok] s1] eqn:Eh.
+  destruct (negb (compatible o h)); [discriminate|].
+  destruct ok; cbn [negb] in H; [|discriminate].
+  pose proof (read_header_decoder _ _ _ Eh) as Hd. cbn [s_bytes] in Hd.
+  apply read_header_inv in Eh; [|reflexivity]. cbn [s_bytes s_avail] in Eh. destruct Eh as [H48 [Hb1 _]].
+  assert (Hs : small_hdr h).
+  { destruct (read_file_header_counts _ _ Hd) as [A [B [C D]]]. destruct Hsm as [S1 [S2 [S3 S4]]].
+    assert (P : forall off, (off + 8 <= 48)%nat -> firstn 8 (skipn off (firstn 48 bytes)) = firstn 8 (skipn off bytes)).
+    { intros off Ho. rewrite <- (firstn_skipn 48 bytes) at 2. symmetry. apply field_of_prefix. rewrite firstn_length. unfold len in H48. lia. }
+    rewrite P in A, B, C, D by lia.
+    pose proof (le_decode_field_range 8 16 bytes Hok). pose proof (le_decode_field_range 8 24 bytes Hok).
+    pose proof (le_decode_field_range 8 32 bytes Hok). pose proof (le_decode_field_range 8 40 bytes Hok).
+    unfold small_hdr. rewrite A, B, C, D. lia. }
+  assert (Hok1 : bytes_ok (s_bytes s1)) by (rewrite Hb1; apply bytes_ok_skipn; exact Hok).
+  destruct (chunk_loop _ o h init_rst false s1) as [[st eof]|r0 st0|w0] eqn:EL; [|discriminate|discriminate].
+  apply chunk_loop_inv2 in EL; try assumption; [|apply init_inv2; exact Hs].
+  destruct (negb eof); [discriminate|].
+  match type of H with (if ?c then _ else _) = _ => destruct c eqn:Ec; [discriminate|] end.
+  inversion H; subst; clear H. cbn [result_mesh m_nv m_edges m_faces m_cells].
+  destruct EL as [_ [_ [_ [_ [_ [_ HH]]]]]]. exact HH.
+Qed.
